@@ -346,6 +346,14 @@ class Check:
 
     # -- obligations ------------------------------------------------------
     def prove(self, extra_targets=()):
+        # every Generated/*.v is regenerated from /repo's current source before anything is proved
+        import importlib
+        for name in ('c01', 'c08', 'c09', 'c12', 'c13', 'c15', 'c20'):
+            try:
+                with BuildLock():
+                    importlib.import_module('translate.' + name).generate()
+            except Exception as e:
+                self.obligation_failures.append(('T1:' + name, 'translator raised %r' % (e,)))
         nfiles, problems = audit_sources()
         self.cov['audited_files'] = nfiles
         for p in problems:
